@@ -292,8 +292,14 @@ def observe_all(st, ids=range(0, 6)):
     each = {}
     for g in ids:
         each[g] = safe(lambda: st[g])
+    def nested():
+        # an iteration that is still open while every id is looked up and a second iteration runs in between
+        out = []
+        for t in st:
+            out.append((t, [safe(lambda: st[g]) for g in ids], list(st)))
+        return out
     return {"len": safe(lambda: len(st)), "contiguous": safe(st.is_contiguous), "list": safe(lambda: list(st)),
-            "each": each}
+            "each": each, "nested": safe(nested)}
 
 
 def snapshot(st, log, kind):
@@ -419,6 +425,12 @@ def check_obs(cfg, obs, stored, when):
     if obs["list"] != ("ok", exp):
         v.append(("C14", {"family": fam, "kind": "iteration", "gaps": not contig},
                   "%s: %s list(storage) -> %r, expected %r (ids %r)" % (cfg.name, when, obs["list"], exp, sorted(stored)), {}))
+    if "nested" in obs and obs["list"] == ("ok", exp):
+        lookups = [(("ok", stored[g]) if g in stored else ("exc", "IndexError")) for g in obs["each"]]
+        if obs["nested"] != ("ok", [(t, lookups, exp) for t in exp]):
+            v.append(("C14", {"family": fam, "kind": "iteration", "nested": True},
+                      "%s: %s an iteration interleaved with look-ups of every id and a second iteration -> %r, expected every "
+                      "one of %r with the same look-ups and inner list" % (cfg.name, when, obs["nested"], exp), {}))
     for g, res in obs["each"].items():
         want = ("ok", stored[g]) if g in stored else ("exc", "IndexError")
         if res != want:
